@@ -26,7 +26,7 @@ ConfigBasics(r) ==
   /\ LegalFanConfig(c)
   /\ r.nbT = NbT(c) /\ r.nbA = NbA(c)
   /\ (r.geo => LegalGeo(FanGeomOf(c), GeoOf(r)))
-  /\ (r.block => BlockLegal(c))
+  /\ (r.block => LegalFanGeom(BlockGeomOf(c)))
 
 MemoOf(r) ==
   LET c == CfgOf(r)
@@ -51,6 +51,10 @@ MemoOf(r) ==
       gp |-> gp, slots |-> slots, slotOff |-> slotOff,
       slotsOf |-> IF r.geo THEN [ i \in 1..Len(cells) |-> SlotsOfCell(fg, gp, slotOff, cells[i]) ] ELSE << >>,
       cellsOf |-> IF r.geo THEN [ n \in 1..Len(slots) |-> CellsOfSlot(fg, gp, raOff, slots[n]) ] ELSE << >>,
+      \* without gap removal: the entries of every crystal (virtual ones included) and their bins
+      fgFull |-> FullFanGeomOf(c), raOffFull |-> RaOff(FullFanGeomOf(c)),
+      binIdxFull |-> LET cf == CellSeq(FullFanGeomOf(c)) IN
+                     [ i \in 1..Len(cf) |-> LET b == BinOfCell(NoGaps(c), cf[i]) IN IF b = NoBin THEN 0 ELSE BinIndex(c, segOff, b) ],
       bg |-> bg,
       bcells |-> IF r.block THEN CellSeq(bg) ELSE << >>,
       blkOff |-> IF r.block THEN RaOff(bg) ELSE << >>]
@@ -164,19 +168,61 @@ KLLibOk(r) == kl.has => r.lib <= kl.lib + KLTol(2 * NOnce, 18)
 KLLibIsStoredSum(r) == Abs(r.lib - 4 * StoredSum(r)) <= 4 * (2 * NOnce) + 4
 KLStepOk(r) == KLShape(r) /\ KLOnceOk(r) /\ KLLibOk(r)
 
+\* fan sums straight from the projection data: for every crystal (virtual ones included) the sum of the
+\* used bins that contain it
+ProjFanSumsOk(r) ==
+  LET S == V(r.m, r.ex)  D == Reg(r.pd)  n == g.R * g.N IN
+  /\ HasReg(r.pd) /\ SameShape(S, n) /\ SameShape(D, memo.numBins)
+  /\ FanSumsOkF(memo.fgFull, memo.raOffFull,
+                LAMBDA i : IF memo.binIdxFull[i] = 0 THEN Zero ELSE << D.m[memo.binIdxFull[i]], D.e[memo.binIdxFull[i]] >>, S)
+\* fan sums of the efficiencies alone (model 1 on every entry of the fan), and their fixed point
+EffSumsHyp(r, S) ==
+  /\ r.md = memo.fg.md /\ r.h = memo.fg.h /\ Len(r.x) = memo.fg.R * memo.fg.N /\ SameShape(S, memo.fg.R * memo.fg.N)
+  /\ FanSumsOkF(memo.fg, memo.raOff,
+                LAMBDA i : << 1, r.x[EffIdx(memo.fg, memo.cells[i][1], memo.cells[i][2])] + r.x[EffIdx(memo.fg, memo.cells[i][3], memo.cells[i][4])] >>, S)
+EffFanSumsOk(r) == EffSumsHyp(r, V(r.m, r.ex))
+IterEffNoModelOk(r) == EffSumsHyp(r, V(r.sm, r.se)) /\ V(r.m, r.ex) = EffOfExp(r.x)
+\* the 2D interface
+DetPairOk(r) ==
+  LET out == V(r.m, r.ex)  D == Reg(r.pd)  w == 2 * H2(g) + 1 IN
+  /\ HasReg(r.pd) /\ SameShape(D, memo.numBins)
+  /\ r.seg \in 0..g.maxSeg /\ r.ax \in 0..(NAx(g, r.seg) - 1)
+  /\ r.n = g.N /\ r.minA = 0 /\ r.maxA = g.N - 1 /\ r.minB0 = g.N \div 2 - H2(g) /\ r.maxB0 = g.N \div 2 + H2(g)
+  /\ SameShape(out, g.N * w)
+  /\ \A i \in 1..(g.N * w) :
+        LET a == (i - 1) \div w  b == (a + g.N \div 2 + ((i - 1) % w) - H2(g)) % g.N
+            bin == DetPairBin(g, r.seg, r.ax, a, b)
+        IN /\ bin.seg # 9998
+           /\ ValAt(out, i) = (IF bin = NoBin THEN Zero ELSE ValAt(D, BinIndex(g, memo.segOff, bin)))
+SetDetPairOk(r) ==
+  LET dp == V(r.dm, r.de)  pos == V(r.pm, r.pe)  neg == V(r.nm, r.ne)  nt == NTang(g)  nv == g.N \div 2 IN
+  /\ SameShape(dp, g.N * (2 * H2(g) + 1)) /\ SameShape(pos, nv * nt) /\ SameShape(neg, nv * nt)
+  /\ \A j \in 1..(nv * nt) :
+        LET d == VT2D(g.N, (j - 1) \div nt, g.minTang + ((j - 1) % nt)) IN
+        /\ ValAt(pos, j) = ValAt(dp, DetPairEntryIndex(g, d[1], d[2]))
+        /\ ValAt(neg, j) = (IF r.seg = 0 THEN ValAt(pos, j) ELSE ValAt(dp, DetPairEntryIndex(g, d[2], d[1])))
+\* a call that is announced must return (the line after the announcement is its record)
+BeginOk(r) == l < Len(TraceLog) /\ TraceLog[l + 1].e = r.what
+
 Explains(r) ==
   CASE r.e = "Config" -> ConfigBasics(r)
     [] r.e = "ConfigRejected" -> FALSE
     [] r.e = "Load" -> SameShape(V(r.m, r.ex), NCells)      \* a register filled by the driver (an input)
+    [] r.e = "Begin" -> BeginOk(r)
     [] r.e = "MakeFan" -> MakeFanOk(r)
     [] r.e = "SetFan" -> SetFanOk(r)
+    [] r.e = "ProjFanSums" -> ProjFanSumsOk(r)
+    [] r.e = "DetPair" -> DetPairOk(r)
+    [] r.e = "SetDetPair" -> SetDetPairOk(r)
     [] r.e = "ApplyEff" -> ApplyEffOk(r)
     [] r.e = "ApplyGeo" -> ApplyGeoOkT(r)
     [] r.e = "ApplyBlock" -> ApplyBlockOkT(r)
     [] r.e = "FanSums" -> FanSumsOkT(r)
+    [] r.e = "EffFanSums" -> EffFanSumsOk(r)
     [] r.e = "IterEff" -> IterEffOk(r)
+    [] r.e = "IterEffNoModel" -> IterEffNoModelOk(r)
     [] r.e = "IterGeo" -> IterGeoOk(r)
-    [] r.e = "IterBlock" -> IterBlockOk(r)
+    [] r.e = "IterBlock" -> BlockLegal(g) /\ IterBlockOk(r)
     [] r.e = "KLStart" -> KLStartOk(r)
     [] r.e = "KLStep" -> KLStepOk(r)
     [] OTHER -> FALSE
@@ -184,9 +230,17 @@ Explains(r) ==
 \* known finding C20-kl-inplane: KL(FanProjData, FanProjData) counts the detector pairs inside one
 \* ring twice, so with more than one ring it is not the distance the efficiency update descends and
 \* can increase although the distance with every pair counted once does not
+\* known finding C20-block-samepair: block data (dimensioned as ML_estimate_component_based_normalisation does:
+\* all OTHER blocks) has no entry for two crystals of the same block; when the fan is wide enough to contain such
+\* pairs apply_block_norm reads outside the block data (the call does not return under the sanitizer, or
+\* multiplies by whatever it read)
 Classify(r) ==
-  IF r.e = "KLStep" /\ g # NoCfg /\ HasMemo THEN
-     IF KLShape(r) /\ KLOnceOk(r) /\ ~KLLibOk(r) /\ memo.fg.R > 1 /\ KLLibIsStoredSum(r) THEN "C20-kl-inplane" ELSE "new"
+  IF g = NoCfg \/ ~HasMemo THEN "new"
+  ELSE IF r.e = "KLStep" THEN
+     (IF KLShape(r) /\ KLOnceOk(r) /\ ~KLLibOk(r) /\ memo.fg.R > 1 /\ KLLibIsStoredSum(r) THEN "C20-kl-inplane" ELSE "new")
+  ELSE IF (r.e = "ApplyBlock" \/ (r.e = "Begin" /\ r.what = "ApplyBlock")) /\ ~BlockLegal(g) THEN "C20-block-samepair"
+  \* the process ended inside the announced call
+  ELSE IF r.e = "Abort" /\ l > 1 /\ TraceLog[l - 1].e = "Begin" /\ TraceLog[l - 1].what = "ApplyBlock" /\ ~BlockLegal(g) THEN "C20-block-samepair"
   ELSE "new"
 
 Init == l = 1 /\ g = NoCfg /\ memo = NoMemo /\ regs = << >> /\ prov = << >> /\ kl = [has |-> FALSE] /\ bad = << >>
@@ -204,6 +258,7 @@ Next ==
         /\ memo' = IF isCfg THEN mm ELSE memo
         \* the registers take the LOGGED results, so that a wrong line does not make the following ones wrong
         /\ regs' = IF isCfg THEN << >>
+                   ELSE IF r.e = "MakeFan" /\ HasMemo THEN (r.dst :> V(r.m, r.ex)) @@ (r.pd :> V(r.dm, r.de)) @@ regs
                    ELSE IF Writes(r) /\ HasMemo THEN (r.dst :> V(r.m, r.ex)) @@ regs
                    ELSE regs
         /\ prov' = IF isCfg THEN << >>
